@@ -52,6 +52,8 @@ BASE_CLIENT = "import httpx\n\n\nclass MyBaseClient:\n    def __init__(self, url
 
 # ---- invalid operations: (label = targeted rule, queries text)
 INVALID_OPS = [
+    # beyond example sizes: so many problems that the validator stops counting (its 101st entry says so and names no place in the document)
+    ("FieldsOnCorrectType-130-operations", " ".join("query Op%d { node { id renamedAway%d } }" % (i, i) for i in range(130))),
     ("ExecutableDefinitions", "query A { node { id } } type X { a: Int }"),
     ("UniqueOperationNames", "query A { node { id } } query A { node { id } }"),
     ("LoneAnonymousOperation", "{ node { id } } query B { node { id } }"),
